@@ -691,14 +691,23 @@ def gen_argfind(ctx, op):
     return [wrap(ctx, in_units)], [wrap(ctx, out_units)], {}
 
 
-def gen_id(ctx, op):
-    """Blocks: simple pairs or concat blocks (see DESIGN S1)."""
+def gen_id(ctx, op, pure=False, concat=True, third=None):
+    """Blocks: simple pairs or concat blocks (see DESIGN S1).  pure: bijective rearrangement only
+    (no diagonal / squeeze / broadcast).  third: list receiving a third expression per block."""
     nblocks = ctx.draw(st.sampled_from([1, 1, 1, 2, 2, 3]))
     ins, outs = [], []
-    pool = _vector_units(ctx, 3)
+    pool = _vector_units(ctx, 4 if pure else 3, allow_fam=not pure or ctx.b(0.3))
     for _ in range(nblocks):
-        if ctx.b(0.3):
-            _id_concat_block(ctx, pool, ins, outs)
+        if concat and ctx.b(0.08):
+            _id_concat2_block(ctx, pool, ins, outs)
+        elif concat and ctx.b(0.3):
+            _id_concat_block(ctx, pool, ins, outs, pure=pure)
+        elif pure:
+            us = ctx.perm(ctx.subset(pool, 0.8))
+            ins.append(wrap(ctx, us))
+            outs.append(wrap(ctx, ctx.perm(us)))
+            if third is not None:
+                third.append(wrap(ctx, ctx.perm(us)))
         else:
             us = _with_diagonal(ctx, ctx.perm(ctx.subset(pool, 0.7)))
             out_units = _out_units(ctx, _dedupe(us))
@@ -707,7 +716,7 @@ def gen_id(ctx, op):
     return ins, outs, {}
 
 
-def _id_concat_block(ctx, pool, ins, outs):
+def _id_concat_block(ctx, pool, ins, outs, pure=False):
     m = ctx.draw(st.sampled_from([2, 2, 3]))
     common = ctx.perm(ctx.subset(pool, 0.6))
     group_in = ctx.b(0.5)
@@ -719,7 +728,7 @@ def _id_concat_block(ctx, pool, ins, outs):
             children.append(("both", ctx.new_axis()))
         elif r <= 7:
             children.append(("both", ["flat", [ctx.new_axis(), ctx.new_axis()]]))
-        elif group_out and not group_in:
+        elif group_out and not group_in and not pure:
             # present on the output side only: a numeric / named broadcast block
             leaf = ctx.new_num(ctx.draw(st.sampled_from(LENS))) if ctx.b(0.7) else ctx.new_axis()
             children.append(("out", leaf))
@@ -746,7 +755,7 @@ def _id_concat_block(ctx, pool, ins, outs):
 
     if group_in:
         cat = ["cat", [ch for _, ch in children]]
-        if ctx.b(0.2):
+        if ctx.b(0.2) and not pure:
             extra = ctx.new_axis()
             common = common + [("leaf", extra, False)]
             ins.append(tensor("in", [["flat", [cat, extra]]]))
@@ -759,6 +768,44 @@ def _id_concat_block(ctx, pool, ins, outs):
         outs.append(tensor("out", [cat]))
     else:
         outs.extend(per_child("out"))
+
+
+def _id_concat2_block(ctx, pool, ins, outs):
+    """Two concatenated axes in one tensor: pieces are ordered with the left-most '+' most significant."""
+    common = ctx.perm(ctx.subset(pool, 0.4))
+    m1 = ctx.draw(st.sampled_from([2, 2, 3]))
+    m2 = 2
+    same_len = ctx.b(0.6)
+    l1 = ctx.draw(st.sampled_from([1, 2, 2, 3]))
+    l2 = ctx.draw(st.sampled_from([1, 2, 2, 3]))
+    ch1 = [ctx.new_axis(l1 if same_len else None) for _ in range(m1)]
+    ch2 = [ctx.new_axis(l2 if same_len else None) for _ in range(m2)]
+    for a in ch1 + ch2:
+        ctx.protected.discard(a[1])
+
+    def grouped():
+        units = list(common)
+        p1 = ctx.draw(st.integers(0, len(units)))
+        p2 = ctx.draw(st.integers(p1, len(units)))
+        return wrap(ctx, units[:p1], extras=False) + [["cat", list(ch1)]] + wrap(ctx, units[p1:p2], extras=False) + [["cat", list(ch2)]] + wrap(ctx, units[p2:], extras=False)
+
+    def separate():
+        exprs = []
+        for a in ch1:
+            for b in ch2:
+                units = ctx.perm(list(common) + [("leaf", a, False), ("leaf", b, False)])
+                exprs.append(wrap(ctx, units, extras=False))
+        return exprs
+
+    mode = ctx.draw(st.sampled_from(["gg", "gs", "sg"]))
+    if mode[0] == "g":
+        ins.append(grouped())
+    else:
+        ins.extend(separate())
+    if mode[1] == "g":
+        outs.append(grouped())
+    else:
+        outs.extend(separate())
 
 
 FAMILY_GEN = {
@@ -921,3 +968,26 @@ def _contains_br(it):
     if it[0] in ("flat", "cat"):
         return any(_contains_br(c) for c in it[1])
     return False
+
+
+@st.composite
+def pure_id_case(draw, with_third=False):
+    """A pure rearrangement for einx.id (bijective; every size passed by keyword is available via
+    relations.all_named_sizes).  with_third: additionally 'outs2', a third expression list."""
+    ctx = Ctx(draw)
+    third = [] if with_third else None
+    ins, outs, _ = gen_id(ctx, "id", pure=True, concat=not with_third, third=third)
+    env = ctx.env
+    guard = 0
+    while _loop_size(env, ins, outs) > MAX_ELEMS and guard < 50:
+        guard += 1
+        big = [k for k, v in env.items() if v > 2 and not k.startswith("#") and k not in ctx.protected]
+        if not big:
+            break
+        env[big[guard % len(big)]] -= 1
+    sizes, smeta = compute_sizes(ctx, ins, outs)
+    data = [{"kind": draw(st.sampled_from(["perm", "float"])), "seed": draw(st.integers(0, 2**16))} for _ in ins]
+    case = {"op": "id", "ins": ins, "outs": outs, "env": dict(env), "desc": X.p_desc(ins, outs), "sizes": sizes, "opts": {}, "backend": draw(st.sampled_from(BACKENDS)), "data": data, "meta": smeta}
+    if with_third:
+        case["outs2"] = third
+    return case
